@@ -5,6 +5,11 @@ ROOT = os.path.dirname(os.path.dirname(os.path.abspath(__file__)))
 
 # id -> (category, technique, level text, level note, design ref)
 CLAIMED = {
+ "C01": ("exploration",
+         "differential testing against bundled SQLite over generated schemas/data/queries (proptest choice tape, typed SQL grammar), bag model for INTERSECT/EXCEPT ALL",
+         "Generated-input search with an independent reference engine: every case builds the same tables in vibesql and SQLite, renders one typed query in both dialects and compares multisets (sequences under a total ORDER BY). 40k cases quick / 1.5M thorough; regions with recorded defects are excluded by construction in 80% of the budget and classified by structural trigger in the rest.",
+         "Trusts SQLite 3.46 as reference on the shared subset, the renderer's dialect mapping (NULLS LAST, booleans as 0/1) and the 25-line bag model (self-validated against SQLite on every distinct set operation). The columnar gate is forced off through the verif hook in the avoid budget; its agreement with the row path is C03's subject.",
+         "DESIGN.md §6 C01"),
  "C21": ("exploration",
          "property-based testing (proptest choice tape): algebraic laws over generated SqlValue triples + documented interval model",
          "Generated-input search: millions of SqlValue triples biased to NaN/±0/inf/extreme ints/unit-converted intervals are checked against the Eq/Ord/Hash laws and an independent interval decomposition. Laws over three values are cheap and the taught pools cover every variant pair, so exploration is the right level; it does not show absence.",
